@@ -248,6 +248,15 @@ def run_spans(ck):
                           "output_tail": out[-3000:], "replay": "harness spans --seed %s --n %s" % (ck.seed, n)}, no_input=True)
         return
     cases += [json.loads(l) for l in open(outp)]
+    # a panic of the insert service on rows the parser accepted is outside the model's observation alphabet
+    panics = [c for c in cases if c.get("panic")]
+    ck.obligation("the insert services take every TempoSamples/TempoTag the parsers produce (no panic, no lost row)", not panics,
+                  "case ids: %s; %s" % ([c["id"] for c in panics[:10]], panics[0]["panic"][:300] if panics else ""))
+    if panics:
+        w = min(panics, key=size_of)
+        ck.violation({"property": PID, "kind": "accepted spans are not stored: the insert service panicked on the parser's output", "case": w,
+                      "replay": "harness spans --cases <file holding the 'case' object on one line> --out /dev/stdout"})
+    cases = [c for c in cases if not c.get("panic")]
     byid = {c["id"]: c for c in cases}
     tot = {"M": [], "V": [], "R": []}
     # Coq spends ~0.1 s per request elaborating the literal: shards are evaluated by parallel coqc processes
@@ -332,6 +341,10 @@ def run_replay(ck):
         ck.obligation("harness spans ran the replay", False, out[-1500:])
         return
     cs = [json.loads(l) for l in open(outp)]
+    if cs and cs[0].get("panic"):
+        ck.obligation("replay: the insert services take the parser's output", False, cs[0]["panic"][:300])
+        ck.violation({"property": PID, "kind": "accepted spans are not stored: the insert service panicked on the parser's output (replayed)", "case": cs[0]})
+        return
     res, out = eval_text(ck, "C06_replay", cases_file(cs))
     if res is None:
         ck.obligation("replayed request evaluated inside Coq", False, out[-1500:])
